@@ -5,6 +5,7 @@ package main
 import (
 	"fmt"
 	"sort"
+	"strconv"
 	"strings"
 
 	"golang.org/x/tools/go/ssa"
@@ -16,10 +17,33 @@ func init() {
 
 // keyValidate: the consistency check: method of Key with one KeyOp parameter returning error.
 func (P *Prog) keyValidate() *ssa.Function {
+	var cands []*ssa.Function
 	for _, fn := range P.Funcs {
 		if fn.Signature.Recv() != nil && isNamed(deref(fn.Signature.Recv().Type()), cosePath, "Key") && len(fn.Params) == 2 && isNamed(fn.Params[1].Type(), cosePath, "KeyOp") && errIndex(fn) == 0 && fn.Signature.Results().Len() == 1 {
-			return fn
+			cands = append(cands, fn)
 		}
+	}
+	// per-key-type parts split off the check have the same shape: the check is
+	// the candidate that no other candidate calls
+	var roots []*ssa.Function
+	for _, c := range cands {
+		calledByOther := false
+		for _, d := range cands {
+			if d == c {
+				continue
+			}
+			for _, ci := range callsIn(d, nil) {
+				if staticCallee(ci) == c {
+					calledByOther = true
+				}
+			}
+		}
+		if !calledByOther {
+			roots = append(roots, c)
+		}
+	}
+	if len(roots) == 1 {
+		return roots[0]
 	}
 	undecidedf("anchor not found: COSE_Key consistency check (method of Key taking a KeyOp)")
 	return nil
@@ -56,6 +80,23 @@ func (P *Prog) keyDerive() *ssa.Function {
 	}
 	undecidedf("anchor not found: algorithm derivation called by the consistency check")
 	return nil
+}
+
+// isOpsMembership: t is "op is a member of X" (slices.Contains(X, op)) or
+// "X == nil || op is a member of X" as a gate term.
+func isOpsMembership(t, X *Term, op string) bool {
+	if t.Op == "call" && strings.HasPrefix(t.S, "slices.Contains[") && len(t.Args) == 2 {
+		return t.Args[0].eq(X) && t.Args[1].String() == op
+	}
+	if t.Op == "gate" && len(t.Args) == 3 {
+		c := t.Args[0]
+		isNil := c.Op == "binop" && c.S == "==" && len(c.Args) == 2 && ((c.Args[0].eq(X) && c.Args[1].Op == "nil") || (c.Args[1].eq(X) && c.Args[0].Op == "nil"))
+		isTrue := func(u *Term) bool { return u.Op == "const" && u.S == "true" }
+		if isNil && isTrue(t.Args[1]) {
+			return isOpsMembership(t.Args[2], X, op)
+		}
+	}
+	return false
 }
 
 func condHas(p *Path, pat string, val bool, b bindings) bool {
@@ -369,6 +410,8 @@ func runC15(r *Report, tier string) {
 
 	// R15.3
 	canOp := (*ssa.Function)(nil)
+	canOpOps, canOpOp := "$0.Ops", "$1"
+	canOpInline := false
 	for _, pr := range []struct{ name, op, conv, ctor string }{{"Signer", "1", "PrivateKey", "NewSigner"}, {"Verifier", "2", "PublicKey", "NewVerifier"}} {
 		fn := P.methodOf(keyT, pr.name)
 		conv := P.methodOf(keyT, pr.conv)
@@ -385,17 +428,49 @@ func runC15(r *Report, tier string) {
 			c := delegCall(x.errTerm)
 			okDel := x.delegated && c != nil && c.S == shortFn(ctor) && len(c.Args) == 2 && c.Args[0].String() == "res<0>(call<"+shortFn(aod)+">($0))" && strings.Contains(c.Args[1].String(), "res<0>(call<"+shortFn(conv)+">($0))")
 			fs := exitFacts(P, x)
-			ms := fs.matchAll([]factPat{fp("call<%>(*$0, " + pr.op + ")")}, nil)
 			okOp := false
+			opsT := mustPat("*$0.Ops")
 			for _, f := range fs {
-				if f.Val && f.Pred.Op == "call" && len(f.Pred.Args) == 2 && f.Pred.Args[0].String() == "*$0" && f.Pred.Args[1].String() == pr.op {
-					if g := P.calleeOfTerm(f.Pred); g != nil && boolResultIndex(g) == 0 {
-						okOp = true
-						canOp = g
+				if !f.Val {
+					continue
+				}
+				// the membership test written in place
+				if isOpsMembership(f.Pred, opsT, pr.op) {
+					okOp = true
+					canOpInline = true
+					continue
+				}
+				// a predicate over the key (by value) or over its Ops list and the operation
+				if f.Pred.Op != "call" {
+					continue
+				}
+				g := P.calleeOfTerm(f.Pred)
+				if g == nil || boolResultIndex(g) != 0 {
+					continue
+				}
+				xi, oi := -1, -1
+				byKey := false
+				for i, a := range f.Pred.Args {
+					switch {
+					case a.String() == "*$0":
+						xi, byKey = i, true
+					case a.eq(opsT):
+						xi = i
+					case a.String() == pr.op:
+						oi = i
 					}
 				}
+				if xi < 0 || oi < 0 {
+					continue
+				}
+				okOp = true
+				canOp = g
+				canOpOps = "$" + strconv.Itoa(xi)
+				if byKey {
+					canOpOps += ".Ops"
+				}
+				canOpOp = "$" + strconv.Itoa(oi)
 			}
-			_ = ms
 			miss, _ := fs.firstMissing([]factPat{
 				fp("binop<==>(nil, res<1>(call<" + shortFn(conv) + ">($0)))"),
 				fp("binop<==>(nil, res<1>(call<" + shortFn(aod) + ">($0)))"),
@@ -412,27 +487,38 @@ func runC15(r *Report, tier string) {
 			}
 		}
 		why := ""
+		X := mustPat(canOpOps)
+		usesLoop := false
 		for _, p := range P.allPaths(canOp) {
 			res := p.results()
 			if res[0].Op == "const" && res[0].S == "false" {
 				continue
 			}
-			nilOps := condHas(p, "binop<==>($0.Ops, nil)", true, bindings{})
+			if isOpsMembership(res[0], X, canOpOp) {
+				continue
+			}
+			nilOps := condHas(p, "binop<==>("+canOpOps+", nil)", true, bindings{})
 			eq := false
 			for _, c := range p.conds {
-				if c.Val && c.Pred.Op == "binop" && c.Pred.S == "==" && (c.Pred.Args[0].String() == "$1" || c.Pred.Args[1].String() == "$1") && strings.Contains(c.Pred.String(), "index($0.Ops") {
+				if !c.Val {
+					continue
+				}
+				if c.Pred.Op == "binop" && c.Pred.S == "==" && (c.Pred.Args[0].String() == canOpOp || c.Pred.Args[1].String() == canOpOp) && strings.Contains(c.Pred.String(), "index("+canOpOps) {
+					eq, usesLoop = true, true
+				}
+				if isOpsMembership(c.Pred, X, canOpOp) {
 					eq = true
 				}
 			}
-			if !nilOps && !eq {
-				why = "canOp returns true on a path that is neither 'Ops == nil' nor 'some element == op': " + truncate(fmt.Sprint(p.conds), 200)
+			if !(res[0].Op == "const" && res[0].S == "true") || (!nilOps && !eq) {
+				why = "the key_ops predicate returns true on a path that is neither 'Ops == nil' nor 'some element == op': " + truncate(fmt.Sprint(p.conds), 200) + " -> " + truncate(res[0].String(), 120)
 			}
 		}
-		if L == nil && why == "" {
+		if usesLoop && L == nil && why == "" {
 			why = "no full-range loop over Ops"
 		}
 		r.ob("R15.3", shortFn(canOp)+":semantics", canOp, nil, "canOp is true only for nil Ops or an element equal to the operation").check(why == "", "nil Ops | elem == op", why)
-	} else {
+	} else if !canOpInline {
 		r.ob("R15.3", "canOp:found", nil, nil, "key_ops predicate identified").fail("no canOp(op) fact on the Signer/Verifier success exits")
 	}
 	// R15.5: shares R08.6's key-label obligation
